@@ -70,6 +70,9 @@ StrRefDrift(e) == e.table = "MODN" /\ \E j \in 1..Len(e.refs) : ~(\E q \in 1..Le
 Owed(st) == IF st.kind = "rootconv" THEN ConvRootOwed(st.ver, st.to) ELSE ConvGroupOwed(st.ver, st.to)
 SecWhy(e, st) ==
     IF e.phase = "convert" THEN (IF e.name \in Owed(st) /\ e.a # e.b THEN "representable_section_changed" ELSE "")
+    \* a skybox reference is content only in versions that can carry one (WotLK+); written for
+    \* Classic/TBC it is outside the format's domain (the writer drops it) -- no obligation
+    ELSE IF e.name = "skybox" /\ ~SupportsSkybox(st.ver) THEN ""
     ELSE IF e.a # e.b THEN "section_differs" ELSE ""
 
 Expected(st) == CASE st.kind = "root"  -> RootSections
